@@ -6,24 +6,29 @@ from vlib import hexs, unhex
 META = dict(
     property_id='C10',
     design_ref='DESIGN.md section 4, C10',
-    technique=('Coq proof (invariant over all operation histories: per-server store log with pairwise distinct generations, '
-               'L1 entries are log entries) + wire codec round-trip lemmas + extracted-model correspondence against real '
-               'tcp_cache_service / cache_over_ip instances on loopback'),
+    technique=('Coq proof (refinement of one shared cache + invariant over all operation histories: per-server store log with '
+               'pairwise distinct generations, L1 entries are log entries) + wire codec round-trip lemmas + hash step regenerated '
+               'from the source + extracted-model correspondence against real tcp_cache_service / cache_over_ip instances on loopback'),
     level_text=('Theorems in coq/C10/Props.v about the executable model of cache_over_ip + tcp_cache + tcp_cache_service::session + '
-                'mem_cache(limit 0) + tcp_connector::hash, for every history of store/fetch/rise/clear/evict/stats/clock-tick/raw-frame '
-                'operations by any number of clients (each with or without L1) over any number of servers: a client fetch returns '
-                'value v with deadline d iff the responsible server holds (v,d) unexpired at that moment (fetch_current); on every '
-                'server a generation is issued to at most one store event (gen_injective) and every L1 entry is such an event '
-                '(l1_coherent); store/fetch frames carry value, deadline and trigger set unchanged exactly when trigger names are '
-                'non-empty and NUL-free (codec_roundtrip, with refuted lemmas for the empty name and names containing NUL); '
-                'server_of k < n and depends on the key bytes only. The hash step is regenerated from src/tcp_connector.cpp and '
-                'proved equal to the model leaf. The model is run against the real client/server code on the same histories, '
-                'raw frames and client-codec probes.'),
+                'mem_cache(limit 0) + tcp_connector::hash. For any number of servers > 0, any number of nodes each with or without L1, '
+                'and every history of store/fetch/rise/clear/evict/stats/clock-tick operations by any nodes in any order (stores in the '
+                'exact domain of the wire format): the values and deadlines returned by all fetches are exactly those of ONE shared '
+                'mem_cache executing the same operations (network_cache_is_one_cache). For every history including raw frames of a foreign '
+                'peer: a client fetch returns value v with deadline d iff the responsible server holds (v,d) unexpired at that moment '
+                '(fetch_current); after a completed store / rise / clear by any node and any reads, no node fetches the replaced value '
+                '(no_older_value_after_store, no_raised_value_after_rise, nothing_after_clear); on every server a generation is issued to at '
+                'most one store event over the whole history (gen_injective) and an L1 record with the server\'s current generation is the '
+                'server\'s current record (l1_coherent); header, store and fetch frames carry value, deadline and trigger set unchanged exactly '
+                'when the key is non-empty and trigger names are non-empty and NUL-free (codec round trips, with refutation witnesses for the '
+                'empty name, the empty key and names containing NUL = known finding); server_of k < n, a key is only ever stored on server_of n k, '
+                'and the hash step regenerated from src/tcp_connector.cpp equals the model leaf for every state and byte. The model is run '
+                'against the real client/server code on the same histories, raw frames and client-codec probes.'),
     level_note=('Trusted: Coq kernel + vm_compute; clang AST + the hash-step translation (cxx2v expression translator); extraction; '
                 'the C++ around the modelled functions (booster::aio sockets, messenger::transmit without reconnects, threads) is '
                 'exercised by the harness, not modelled; mem_cache is modelled abstractly with limit 0 (no LRU eviction; L1 eviction '
                 'is an explicit Evict operation); generation counter is unbounded in the model (uint64 in the code); frames whose '
-                'uint32 length sum wraps are outside the model (hostile peer).'),
+                'uint32 length sum wraps are outside the model (hostile peer). Known finding: trigger names (and keys, as triggers) that are '
+                'empty or contain NUL are not carried by the wire format.'),
 )
 
 GEN = {}   # the hash loop body needs its own small driver around cxx2v (state variable h): see gen_hash()
@@ -91,6 +96,66 @@ def gen_hash():
     except cxx2v.Unsupported as e:
         vlib.write_if_changed(out, '(* translator failed: %s *)\nDefinition broken : False := I.\n' % str(e).replace('*)', '* )').replace('"', "'"))
         return [('Gen_tcphash', str(e))]
+
+
+def gen_proto():
+    """opcode numbering (namespace opcodes of private/tcp_cache_protocol.h) and the layout of tcp_operation_header (sizeof /
+    offsetof evaluated by clang in harness/C10_tu.cpp) -> coq/gen/Gen_tcpproto.v (g_op_<name>, g_<enumerator of c10_layout>)"""
+    import cxx2v
+    src = os.path.join(vlib.VERIF, 'harness', 'C10_tu.cpp')
+    out = os.path.join(vlib.COQ, 'gen', 'Gen_tcpproto.v')
+    try:
+        def enumerators(filt):
+            objs = cxx2v.run_clang(src, filt, vlib.repo_incs())
+            res = []
+
+            def value_of(n):
+                if isinstance(n, dict):
+                    if n.get('kind') == 'ConstantExpr' and 'value' in n:
+                        return int(n['value'])
+                    for c in n.get('inner', []) or []:
+                        v = value_of(c)
+                        if v is not None:
+                            return v
+                return None
+
+            def walk(n):
+                if isinstance(n, dict):
+                    if n.get('kind') == 'EnumDecl':
+                        nxt = 0
+                        for c in n.get('inner', []) or []:
+                            if c.get('kind') == 'EnumConstantDecl':
+                                v = value_of(c) if c.get('inner') else None
+                                if c.get('inner') and v is None:
+                                    raise cxx2v.Unsupported('enumerator %s: value not evaluated by clang' % c.get('name'))
+                                v = nxt if v is None else v
+                                res.append((c['name'], v))
+                                nxt = v + 1
+                    for c in n.get('inner', []) or []:
+                        walk(c)
+            for o in objs:
+                walk(o)
+            return res
+        ops = enumerators('opcodes')
+        lay = enumerators('c10_layout')
+        need_ops = ['fetch', 'rise', 'clear', 'store', 'stats', 'error', 'done', 'data', 'no_data', 'uptodate', 'out_stats']
+        if not all(n in dict(ops) for n in need_ops):
+            raise cxx2v.Unsupported('namespace opcodes: expected enumerators not found: %r' % (ops,))
+        if len(lay) < 18:
+            raise cxx2v.Unsupported('c10_layout enumerators not found')
+        lines = ['(* GENERATED by checks/C10.py:gen_proto (clang AST of private/tcp_cache_protocol.h via harness/C10_tu.cpp) -- do not edit *)',
+                 'From Coq Require Import ZArith List.', 'Import ListNotations.', 'Local Open Scope Z_scope.', '']
+        for n, v in ops:
+            lines.append('Definition g_op_%s : Z := (%d).' % (n, v))
+        lines.append('Definition g_opcodes : list Z := [%s].' % '; '.join('(%d)' % v for _, v in ops))
+        for n, v in lay:
+            lines.append('Definition g_%s : Z := (%d).' % (n, v))
+        with vlib.Lock('gen-Gen_tcpproto'):
+            vlib.write_if_changed(out, '\n'.join(lines) + '\n')
+        return []
+    except cxx2v.Unsupported as e:
+        vlib.write_if_changed(out, '(* translator failed: %s *)\nDefinition broken : False := I.\n' % str(e).replace('*)', '* )').replace('"', "'"))
+        return [('Gen_tcpproto', str(e))]
 
 
 # ------------------------------------------------------------------------------------------------
@@ -323,6 +388,10 @@ def gen_cases(ctx):
         cases.append(gen_handshake_history(rng))
     for _ in range(ctx.scale(3000, 30000)):
         cases.append(gen_probe(rng))
+    # real concurrency: one thread per node, 2 io threads per server; judged by the oracle alone
+    for _ in range(ctx.scale(150, 1500)):
+        cases.append('M %d %s %d %d %d' % (rng.choice([1, 2]), rng.choice(['11', '10', '110', '111', '101']), rng.getrandbits(30),
+                                          rng.choice([20, 40, 80]), rng.choice([1, 2, 3])))
     # key spread: many keys, two and three servers, store on one client, fetch on another
     for _ in range(ctx.scale(150, 2000)):
         ns = rng.choice([2, 3])
@@ -378,6 +447,7 @@ def oracle_history(c, out):
     now = 1000
     spec = {}            # key -> (val, trigs incl. key, dl): what the cache holds if every completed operation took effect
     foreign = False
+    restarted = False
     lossy = set()        # keys whose latest store the wire format cannot carry (empty key, or a trigger name that is empty or
                          # contains NUL): for these keys the server may differ from what the completed operations say
     l1flags = c[2]
@@ -401,6 +471,13 @@ def oracle_history(c, out):
         elif op == 'C':
             spec.clear()
             lossy.clear()
+        elif op == 'B':
+            # a restarted server has lost its records (and its generation counter): outside the property's quantifier, never generated
+            sidx = int(f[1])
+            restarted = True
+            seen_gen[sidx] = {}
+            for k in [k for k in spec if py_hash(k, ns) == sidx]:
+                del spec[k]
         elif op == 'W':
             foreign = True   # a foreign peer may have changed the server: from here on only checks (1)-(3) apply
             ti += 1
@@ -424,6 +501,9 @@ def oracle_history(c, out):
                     return ('key-on-wrong-server', 'key %s found on server %d, responsible is %d' % (k.hex(), i, idx))
             sv = truth[idx]
             # (2) the statement: the client's answer is what the responsible server holds right now
+            if restarted and ((cl is None) != (sv is None) or (cl is not None and (cl['v'] != sv['v'] or cl['dl'] != sv['dl']))):
+                return ('stale-after-server-restart', 'after a cache server restart (generation counter back at 0) the client answered %s '
+                        'but the server holds %s for key %s' % (cl and cl['v'][:40].hex(), sv and sv['v'][:40].hex(), k.hex()))
             if (cl is None) != (sv is None):
                 return ('fetch-not-current', 'client %s but server %s for key %s' % (
                     'found' if cl else 'not found', 'holds a value' if sv else 'holds nothing', k.hex()))
@@ -534,6 +614,45 @@ def oracle_probe(c, out):
     return None
 
 
+def oracle_concurrent(c, out):
+    """real concurrency (one thread per node): every read must be explained by a write that is not known to be overwritten:
+    a fetch that returns the value of write w (or nothing: some rise/clear d, or the initial state) is stale when another
+    write to the same key started after w ended and ended before the fetch started."""
+    ev = []
+    for tok in out.split()[1:]:
+        f = tok.split('.')
+        if len(f) != 6:
+            return ('bad-output', 'unexpected event ' + tok[:60])
+        ev.append((int(f[0]), f[1], int(f[2]), f[3], int(f[4]), int(f[5])))
+    nkeys = int(c[5])
+    writes = {k: [(None, -2, -1)] for k in range(nkeys)}      # key -> [(value or None, start, end)]
+    for node, op, key, val, st, en in ev:
+        if op == 'S':
+            writes[key].append((val, st, en))
+        elif op == 'R':
+            writes[key].append((None, st, en))
+        elif op == 'C':
+            for k in writes:
+                writes[k].append((None, st, en))
+    for node, op, key, val, st, en in ev:
+        if op != 'F':
+            continue
+        want = None if val == '-' else val
+        ws = writes[key]
+        cands = [w for w in ws if w[0] == want and w[1] < en]
+        if not cands:
+            return ('concurrent-value-never-written', 'node %d fetched %s for key %d which no store that had started wrote' % (node, val, key))
+        if not any(not any(w2 is not w and w[2] < w2[1] and w2[2] < st for w2 in ws) for w in cands):
+            return ('concurrent-stale-read', 'node %d fetched %s for key %d at [%d,%d] although a later store/rise/clear of that key had '
+                    'completed before the fetch started' % (node, val, key, st, en))
+    return None
+
+
+def canon_case(case, out):
+    """concurrent runs are not reproducible: they are judged by the oracle alone"""
+    return 'M' if case.startswith('M ') and out.startswith('M ') and 'BAD-CASE' not in out and 'FAILED' not in out and 'EXCEPTION' not in out else out
+
+
 def oracle(case, out):
     c = case.split()
     if out.startswith('<crash') or out.startswith('EXCEPTION') or 'FAILED' in out or 'BAD-CASE' in out:
@@ -542,6 +661,8 @@ def oracle(case, out):
         return oracle_history(c, out)
     if c[0] == 'P':
         return oracle_probe(c, out)
+    if c[0] == 'M':
+        return oracle_concurrent(c, out)
     return None
 
 
@@ -549,6 +670,8 @@ def nontrivial(case, out):
     c = case.split()
     if c[0] == 'H':
         return ' f=1.' in out or ' g=1.' in out
+    if c[0] == 'M':
+        return '.F.' in out
     return True
 
 
@@ -556,6 +679,8 @@ def classify(case, out):
     c = case.split()
     if c[0] == 'P':
         return 'probe:' + c[1]
+    if c[0] == 'M':
+        return 'concurrent:srv%s:nodes%d' % (c[1], len(c[2]))
     n = len(c) - 3
     fl = c[2]
     return 'hist:srv%s:l1=%s:%s' % (c[1], 'all' if '0' not in fl else 'none' if '1' not in fl else 'mixed',
@@ -571,15 +696,16 @@ def run(ctx):
         nonlocal t0
         phase[name] = round(time.time() - t0, 1)
         t0 = time.time()
-    for n, e in vlib.gen_coq(GEN) + gen_hash():
+    for n, e in vlib.gen_coq(GEN) + gen_hash() + gen_proto():
         ctx.broke('translator cxx2v failed on %s (tie to source broken)' % n, e)
-    mark('translate_hash_step')
+    mark('translate_hash_step_and_protocol_constants')
     res = vlib.coq_props('C10')
     ctx.proof(res)
     mark('coq_proofs_incl_lock_wait')
     ctx.coverage['trusted_base'] = [
         'Coq 8.16.1 kernel, vm_compute',
         'clang 14 JSON AST + tools/cxx2v.py statement translator driven by checks/C10.py:gen_hash (hash loop body of src/tcp_connector.cpp)',
+        'clang 14 constant evaluation of enumerators / sizeof / offsetof (checks/C10.py:gen_proto over harness/C10_tu.cpp -> opcode numbers, header layout)',
         'extraction: ExtrOcamlBasic, OCaml 4.13.1',
         'harness/C10_netcache.cpp (interposed time(), in-process tcp_cache_service on loopback, capturing fake server), ocaml/C10_driver.ml, checks/C10.py',
         'hand model of cache_over_ip / tcp_cache / tcp_cache_service::session / mem_cache(limit 0) in coq/C10/Defs.v, tied by correspondence',
@@ -591,6 +717,15 @@ def run(ctx):
         'fewer than 2^64 stores per server (generation counter does not wrap) and all frame length fields below 2^32',
         'all nodes share one clock',
         'frames come from tcp_cache clients or from peers whose length fields do not wrap in uint32']
+    ctx.notes += [
+        'known finding name-with-nul-or-empty-not-carried: the wire format cannot carry an empty key, an empty trigger name or a name '
+        'containing NUL (refused store = older value stays current; split name = raising it invalidates nothing); the theorems state the '
+        'exact domain (store_ok) and codec_roundtrip_refuted_outside_domain gives the model witnesses; replays in corpus/C10',
+        'observation: on an L1 hit that is not up to date cache_over_ip::fetch returns the union of the server trigger set and the stale L1 '
+        'copy\'s (over-invalidation only); the oracle demands equality for nodes without L1 and superset for nodes with L1',
+        'observation (outside the quantifier): a cache server restart resets its generation counter, after which an L1 record of an older '
+        'incarnation can be confirmed as up to date; the theorems assume no restart',
+        'the harness closes all its TCP sockets with RST (SO_LINGER 0 via an interposed socket()) to keep loopback TIME_WAIT entries low']
     exe, err = vlib.build_harness('C10_netcache', ['C10_netcache.cpp'])
     if not exe:
         ctx.broke('harness build failed', err)
@@ -612,9 +747,10 @@ def run(ctx):
         'operations aimed at the generation handshake (bursts of L1 refills against bursts of stores of distinct values by other nodes); histories of '
         'operations over 1-3 servers, 2-3 clients, binary keys/values/trigger names, deadlines around the clock and at int64 extremes, '
         'raw frames of a foreign peer (malformed lengths, empty names, unknown opcodes), a separate stream with names the wire format '
-        'cannot carry. A history is non-trivial when at least one fetch returned a value; distinct = distinct case lines.')
+        'cannot carry; concurrent runs (M: one thread per node against 1-2 servers with 2 io threads each, 20-80 operations per node on 1-3 '
+        'keys, judged by the oracle alone: no fetch may return a value that a completed later store/rise/clear had replaced). A history is non-trivial when at least one fetch returned a value; distinct = distinct case lines.')
     ctx.coverage['exhaustive'] = False
     ctx.coverage['exhaustive_parts'] = ['all histories of length <= %d over the 8-operation alphabet that contain a fetch' % ctx.scale(5, 6)]
     mark('case_generation')
-    vlib.differential(ctx, cases, exe, mexe, oracle, nontrivial, classify, jobs=8)
+    vlib.differential(ctx, cases, exe, mexe, oracle, nontrivial, classify, jobs=8, canon_case=canon_case)
     mark('differential_and_oracle')
